@@ -61,6 +61,9 @@ func expandLocals(g *cfgq.Graph, facts []cfgq.Fact, at ast.Node, depth int) []cf
 		}
 		def := soleDef(g, o)
 		if def == nil {
+			def = reachingDef(g, o, at)
+		}
+		if def == nil {
 			continue
 		}
 		if stableAt(g, def, at) {
@@ -68,6 +71,65 @@ func expandLocals(g *cfgq.Graph, facts []cfgq.Fact, at ast.Node, depth int) []cf
 		}
 	}
 	return out
+}
+
+// reachingDef: the local o is assigned in several places, but at the test `at`
+// it can only hold the value of ONE of them: that assignment is passed on every
+// way to the test and no other assignment to o lies between it and the test.
+func reachingDef(g *cfgq.Graph, o types.Object, at ast.Node) ast.Expr {
+	ws, wild := writeNodes(g, o)
+	if wild || len(ws) < 2 || at == nil {
+		return nil
+	}
+	tp, ok := g.Find(at)
+	if !ok {
+		return nil
+	}
+	var found ast.Expr
+	for _, d := range ws {
+		as, isAs := d.(*ast.AssignStmt)
+		if !isAs || len(as.Lhs) != len(as.Rhs) || as.Tok != token.ASSIGN && as.Tok != token.DEFINE {
+			continue
+		}
+		var rhs ast.Expr
+		for i, l := range as.Lhs {
+			if id, isId := ast.Unparen(l).(*ast.Ident); isId && (g.Info.Uses[id] == o || g.Info.Defs[id] == o) {
+				rhs = as.Rhs[i]
+			}
+		}
+		dp, okD := g.Find(as)
+		if rhs == nil || !okD {
+			continue
+		}
+		isD := func(n ast.Node) bool { return n == dp.Node() }
+		if dom, _ := g.Dominated(tp, isD); !dom {
+			continue
+		}
+		clean := true
+		for _, w := range ws {
+			wp, okW := g.Find(w)
+			if !okW {
+				return nil
+			}
+			if wp.Node() == dp.Node() {
+				continue
+			}
+			wn := wp.Node()
+			if g.Path(cfgq.Query{From: dp, After: true, Avoid: isD, Target: func(n ast.Node) bool { return n == wn }}) != nil &&
+				(wn == tp.Node() || g.Path(cfgq.Query{From: wp, After: true, Avoid: isD, Target: func(n ast.Node) bool { return n == tp.Node() }}) != nil) {
+				clean = false
+				break
+			}
+		}
+		if !clean {
+			continue
+		}
+		if found != nil {
+			return nil
+		}
+		found = rhs
+	}
+	return found
 }
 
 // stableAt: no local variable that def mentions can be written after def was
